@@ -23,7 +23,21 @@
 //!    widens nor narrows the window. Judged by accounting, by "a chord never fires for presses whose
 //!    arrival span exceeds its window + the processing lag", and (v1) by the same reference grouping
 //!    over arrival times as from idle (measured: a queued press joins iff it arrived <= T after the
-//!    group's first press; the tick T itself is not judged).
+//!    group's first press; the tick T itself is not judged);
+//!  * held-over group key (`c09_carry.rs`, defchords): one or two keys of the group are still held from
+//!    an earlier chord (or from their own single-key chord) while the next chord is typed, and are let
+//!    go at every position among the new presses - at an idle kanata (release and next press in the
+//!    same tick included) and with the whole of it queued behind the undecided blocker. "A chord
+//!    triggers [...] by a key release": the release of a group key ends the collection whether or not
+//!    the key is one of the collected ones; what was pressed before it is one unit (chord or greedy
+//!    decomposition), a group key pressed after it starts a chord of its own and is used exactly once.
+//!    Judged by accounting and by the reference grouping with a cut at each such release;
+//!  * overlapping activations (`c09_overlap.rs`, defchordsv2): several chords held at the same time
+//!    over six tables of disjoint and key-sharing chords (all-released / first-release / alternating),
+//!    activations and releases interleaved in every way, nested or not. Judged by accounting and, per
+//!    activation, by the release rule: the action stays down until the rule is met by the releases of
+//!    the very presses the chord consumed and goes up shortly after, whatever other chords do
+//!    meanwhile; an isolated complete chord fires whatever else is held.
 
 use crate::core::rng::Rng;
 use crate::core::sim::{code_name, osc, render_hist, Ev, OutKind, Sim};
@@ -50,6 +64,10 @@ const LAYOUT_QUEUE_SLOTS: usize = 32;
 
 #[path = "c09_delayed.rs"]
 mod delayed;
+#[path = "c09_carry.rs"]
+mod carry;
+#[path = "c09_overlap.rs"]
+mod overlap;
 
 fn key_name(k: usize) -> &'static str {
     match k {
@@ -69,6 +87,9 @@ struct Table {
     ts: &'static [u32],
     /// inter-press gaps of the scenarios; empty = {0,1,t-1,t,t+1}
     gaps: &'static [u32],
+    /// defchordsv2 table of the overlapping-activations family only (`c09_overlap.rs`): several chords
+    /// that can be held at the same time; not part of the scenario enumeration
+    ov: bool,
 }
 
 impl Table {
@@ -88,26 +109,35 @@ impl Table {
 }
 
 const TABLES: &[Table] = &[
-    Table { name: "pair", nkeys: 2, chords: &[0b00011], t: 12, ts: &[], gaps: &[] },
-    Table { name: "sub+super", nkeys: 3, chords: &[0b00011, 0b00111], t: 12, ts: &[], gaps: &[] },
-    Table { name: "overlap", nkeys: 3, chords: &[0b00011, 0b00110], t: 25, ts: &[], gaps: &[] },
-    Table { name: "triple", nkeys: 3, chords: &[0b00111], t: 12, ts: &[], gaps: &[] },
-    Table { name: "two-triples", nkeys: 4, chords: &[0b00111, 0b01011], t: 12, ts: &[], gaps: &[] },
-    Table { name: "pairs+quad", nkeys: 4, chords: &[0b00011, 0b01100, 0b01111], t: 25, ts: &[], gaps: &[] },
-    Table { name: "chain", nkeys: 4, chords: &[0b00011, 0b00111, 0b01111], t: 12, ts: &[], gaps: &[] },
-    Table { name: "five", nkeys: 5, chords: &[0b11111, 0b00011, 0b11000, 0b01110], t: 12, ts: &[], gaps: &[] },
+    Table { name: "pair", nkeys: 2, chords: &[0b00011], t: 12, ts: &[], gaps: &[], ov: false },
+    Table { name: "sub+super", nkeys: 3, chords: &[0b00011, 0b00111], t: 12, ts: &[], gaps: &[], ov: false },
+    Table { name: "overlap", nkeys: 3, chords: &[0b00011, 0b00110], t: 25, ts: &[], gaps: &[], ov: false },
+    Table { name: "triple", nkeys: 3, chords: &[0b00111], t: 12, ts: &[], gaps: &[], ov: false },
+    Table { name: "two-triples", nkeys: 4, chords: &[0b00111, 0b01011], t: 12, ts: &[], gaps: &[], ov: false },
+    Table { name: "pairs+quad", nkeys: 4, chords: &[0b00011, 0b01100, 0b01111], t: 25, ts: &[], gaps: &[], ov: false },
+    Table { name: "chain", nkeys: 4, chords: &[0b00011, 0b00111, 0b01111], t: 12, ts: &[], gaps: &[], ov: false },
+    Table { name: "five", nkeys: 5, chords: &[0b11111, 0b00011, 0b11000, 0b01110], t: 12, ts: &[], gaps: &[], ov: false },
     // defchordsv2 only: chords with different timeouts. Chords that are comparable by inclusion share
     // a timeout; an unrelated chord on the same first key has a much shorter (or longer) one.
-    Table { name: "mixed:ab,abc|ad-short", nkeys: 4, chords: &[0b00011, 0b00111, 0b01001], t: 25, ts: &[25, 25, 8], gaps: &[0, 1, 7, 9, 23] },
-    Table { name: "mixed:ac,acd|ab-short", nkeys: 4, chords: &[0b00101, 0b01101, 0b00011], t: 25, ts: &[25, 25, 8], gaps: &[0, 1, 7, 9, 23] },
-    Table { name: "mixed:ab|cd-long|ce-short", nkeys: 5, chords: &[0b00011, 0b01100, 0b10100], t: 30, ts: &[12, 30, 6], gaps: &[0, 1, 5, 7, 13] },
+    Table { name: "mixed:ab,abc|ad-short", nkeys: 4, chords: &[0b00011, 0b00111, 0b01001], t: 25, ts: &[25, 25, 8], gaps: &[0, 1, 7, 9, 23], ov: false },
+    Table { name: "mixed:ac,acd|ab-short", nkeys: 4, chords: &[0b00101, 0b01101, 0b00011], t: 25, ts: &[25, 25, 8], gaps: &[0, 1, 7, 9, 23], ov: false },
+    Table { name: "mixed:ab|cd-long|ce-short", nkeys: 5, chords: &[0b00011, 0b01100, 0b10100], t: 30, ts: &[12, 30, 6], gaps: &[0, 1, 5, 7, 13], ov: false },
+    // overlapping-activations family only (defchordsv2): chords that can be held side by side, disjoint
+    // and with shared keys (an all-released chord stays active on the keys that are still down)
+    Table { name: "ov:two-pairs", nkeys: 4, chords: &[0b00011, 0b01100], t: 20, ts: &[], gaps: &[], ov: true },
+    Table { name: "ov:shared", nkeys: 4, chords: &[0b00011, 0b00110, 0b01001], t: 20, ts: &[], gaps: &[], ov: true },
+    Table { name: "ov:ring", nkeys: 5, chords: &[0b00011, 0b00110, 0b01100, 0b11000, 0b10001], t: 20, ts: &[], gaps: &[], ov: true },
+    Table { name: "ov:pairs+e", nkeys: 5, chords: &[0b00011, 0b01100, 0b10001, 0b10100], t: 20, ts: &[], gaps: &[], ov: true },
+    Table { name: "ov:triple+pairs", nkeys: 5, chords: &[0b00111, 0b11000, 0b01001, 0b10010], t: 20, ts: &[], gaps: &[], ov: true },
+    Table { name: "ov:sub+super+pair", nkeys: 5, chords: &[0b00011, 0b00111, 0b11000], t: 20, ts: &[], gaps: &[], ov: true },
 ];
 
 #[derive(Clone, Debug)]
 struct Conf {
     v2: bool,
     table: usize,
-    /// v2: 0 = all chords all-released, 1 = all first-release
+    /// v2: 0 = all chords all-released, 1 = all first-release, 2 = chords with an even index
+    /// all-released and chords with an odd index first-release (overlapping-activations family only)
     release: u8,
     /// v2: run on layer l2 where chords with an even index are disabled
     on_l2: bool,
@@ -123,6 +153,9 @@ const COUNTERS: [&str; 4] = ["p", "q", "r", "s"];
 fn configs() -> Vec<Conf> {
     let mut v = vec![];
     for table in 0..TABLES.len() {
+        if TABLES[table].ov {
+            continue;
+        }
         if TABLES[table].mixed() {
             for release in 0..2 {
                 v.push(Conf { v2: true, table, release, on_l2: false, counting: false, blocker: false });
@@ -141,7 +174,7 @@ fn configs() -> Vec<Conf> {
     // delayed-start family: the same tables with a blocker key on the layer (appended, so that the
     // indexes of the configurations above do not move)
     for table in 0..TABLES.len() {
-        if TABLES[table].mixed() {
+        if TABLES[table].mixed() || TABLES[table].ov {
             continue;
         }
         v.push(Conf { v2: false, table, release: 0, on_l2: false, counting: false, blocker: true });
@@ -162,7 +195,7 @@ impl Conf {
     }
     fn label(&self) -> String {
         if self.v2 {
-            format!("v2|{}|{}|{}{}", self.tb().name, if self.release == 0 { "all-released" } else { "first-release" }, if self.on_l2 { "l2" } else { "base" }, if self.counting { "|counting" } else if self.blocker { "|blocker" } else { "" })
+            format!("v2|{}|{}|{}{}", self.tb().name, ["all-released", "first-release", "alternating"][self.release.min(2) as usize], if self.on_l2 { "l2" } else { "base" }, if self.counting { "|counting" } else if self.blocker { "|blocker" } else { "" })
         } else {
             format!("v1|{}{}", self.tb().name, if self.counting { "|counting" } else if self.blocker { "|blocker" } else { "" })
         }
@@ -172,6 +205,10 @@ impl Conf {
     }
     fn first_release(&self) -> bool {
         self.v2 && self.release == 1
+    }
+    /// release behaviour of one chord
+    fn first_release_of(&self, ci: usize) -> bool {
+        self.v2 && (self.release == 1 || (self.release == 2 && ci % 2 == 1))
     }
     fn text(&self) -> String {
         let tb = self.tb();
@@ -209,7 +246,7 @@ impl Conf {
                     keylist(ci, *m),
                     action(ci),
                     tb.timeout(ci),
-                    if self.release == 0 { "all-released" } else { "first-release" },
+                    if self.first_release_of(ci) { "first-release" } else { "all-released" },
                     if ci % 2 == 0 { "l2" } else { "" }
                 ));
             }
@@ -356,6 +393,10 @@ enum CaseKind {
     Wide(usize),
     /// delayed-start family (`c09_delayed.rs`): (blocker config, first scenario, last scenario (exclusive))
     Delayed(usize, u64, u64),
+    /// held-over family (`c09_carry.rs`): (v1 blocker config, first scenario, last scenario (exclusive))
+    Carry(usize, u64, u64),
+    /// overlapping-activations family (`c09_overlap.rs`): case number within the family
+    Overlap(u64),
 }
 
 fn n_random(ctx: &Ctx) -> u64 {
@@ -389,6 +430,17 @@ fn layout(ctx: &Ctx) -> Vec<CaseKind> {
             v.push(CaseKind::Delayed(ci, s, (s + delayed::D_CHUNK).min(tot)));
             s += delayed::D_CHUNK;
         }
+    }
+    for (ci, c) in configs().iter().enumerate() {
+        let tot: u64 = carry::work(ctx, c).iter().map(|w| w.2).sum();
+        let mut s = 0;
+        while s < tot {
+            v.push(CaseKind::Carry(ci, s, (s + carry::C_CHUNK).min(tot)));
+            s += carry::C_CHUNK;
+        }
+    }
+    for o in 0..overlap::n_cases(ctx) {
+        v.push(CaseKind::Overlap(o));
     }
     v
 }
@@ -505,6 +557,9 @@ struct Acct {
     merged: u64,
     /// counter key presses per chord (counting configurations)
     counted: [u64; 6],
+    /// per fired chord: one of its keys had more than one unaccounted press when it fired (which press
+    /// it consumed is the accounting's reading, not an observation)
+    fired_choice: Vec<bool>,
 }
 
 /// Known on the unchanged tree (v2), one root cause with two triggers: a chord that completes in the
@@ -534,16 +589,33 @@ fn twice_class(c: &Conf, acct: &Acct, ins: &[InEv], ci: usize) -> &'static str {
 /// The accounting oracle. Returns Err((class, description)) at the first inconsistency.
 /// When a key of a fired chord has several unaccounted presses (tapped, then pressed again for the
 /// chord), the OS stream does not say which press the chord consumed: the earliest is tried first,
-/// then the latest one that had arrived when the chord fired; only if neither reading is consistent
-/// is the (first) inconsistency reported.
+/// then the latest one that had arrived when the chord fired, then (several chords fired) every
+/// combination of the two per fired chord; only if no reading is consistent is the (first)
+/// inconsistency reported.
 fn accounting(c: &Conf, ins: &[InEv], obs: &[Obs]) -> Result<Acct, (&'static str, String)> {
-    match accounting_with(c, ins, obs, false) {
-        Ok(a) => Ok(a),
-        Err(e) => accounting_with(c, ins, obs, true).map_err(|_| e),
+    let e = match accounting_with(c, ins, obs, 0) {
+        Ok(a) => return Ok(a),
+        Err(e) => e,
+    };
+    if let Ok(a) = accounting_with(c, ins, obs, u64::MAX) {
+        return Ok(a);
     }
+    // several chords fired in one history: each of them may have taken the earlier or the later press
+    // (the n-th fired chord takes the latest one iff bit n of the mask is set)
+    let n = obs.iter().filter(|o| o.down && (10..20).contains(&o.id)).count().min(10);
+    if n >= 2 {
+        for mask in 1..(1u64 << n) - 1 {
+            if let Ok(a) = accounting_with(c, ins, obs, mask) {
+                return Ok(a);
+            }
+        }
+    }
+    Err(e)
 }
 
-fn accounting_with(c: &Conf, ins: &[InEv], obs: &[Obs], latest: bool) -> Result<Acct, (&'static str, String)> {
+fn accounting_with(c: &Conf, ins: &[InEv], obs: &[Obs], latest_mask: u64) -> Result<Acct, (&'static str, String)> {
+    let mut chord_no = 0u32;
+    let mut tainted = [false; 7];
     let tb = c.tb();
     let mut acct = Acct::default();
     let mut unacc: Vec<VecDeque<(usize, u64)>> = vec![VecDeque::new(); 7];
@@ -591,6 +663,9 @@ fn accounting_with(c: &Conf, ins: &[InEv], obs: &[Obs], latest: bool) -> Result<
             let pos = unacc[k].iter().position(|(idx, _)| last_individual.map(|l| *idx > l).unwrap_or(true)).unwrap_or(0);
             match unacc[k].remove(pos) {
                 Some((idx, _)) => {
+                    if unacc[k].is_empty() {
+                        tainted[k] = false;
+                    }
                     // only the relative order of individually delivered keys is required
                     if let Some(l) = last_individual {
                         if idx < l {
@@ -611,8 +686,14 @@ fn accounting_with(c: &Conf, ins: &[InEv], obs: &[Obs], latest: bool) -> Result<
             if c.disabled(ci) {
                 return Err(("fired-on-disabled-layer", format!("chord ({}) fired on a layer where it is disabled", mask_keys(*m).iter().map(|k| KEYS[*k]).collect::<Vec<_>>().join(" "))));
             }
+            let latest = latest_mask >> chord_no.min(63) & 1 == 1;
+            chord_no += 1;
             let mut arr = vec![];
+            let mut choice = false;
             for k in mask_keys(*m) {
+                // a choice made for an earlier chord leaves it open which press is left for this one
+                choice |= unacc[k].len() > 1 || tainted[k];
+                tainted[k] = unacc[k].len() > 1;
                 let taken = if latest && unacc[k].len() > 1 { unacc[k].pop_back() } else { unacc[k].pop_front() };
                 match taken {
                     Some((_, a)) => arr.push((k, a)),
@@ -629,6 +710,7 @@ fn accounting_with(c: &Conf, ins: &[InEv], obs: &[Obs], latest: bool) -> Result<
             let lo = arr.iter().map(|x| x.1).min().unwrap_or(0);
             let hi = arr.iter().map(|x| x.1).max().unwrap_or(0);
             acct.fired.push((ci, o.at, hi - lo, arr));
+            acct.fired_choice.push(choice);
             acct.units.push(o.id);
         }
     }
@@ -687,6 +769,15 @@ fn accounting_with(c: &Conf, ins: &[InEv], obs: &[Obs], latest: bool) -> Result<
 /// arrived <= T after the group's first press, where a press arriving at a running chord joins iff
 /// < T: the tick T itself is left undetermined.
 fn v1_expected(c: &Conf, presses: &[(usize, u64)], ambiguous: &mut bool, delayed: bool) -> Vec<u8> {
+    v1_expected_cut(c, presses, ambiguous, delayed, &[])
+}
+
+/// The same with releases of group keys among the presses: `cut[j]` says that a key of the group was
+/// released between press j-1 and press j. "A chord triggers [...] by a key release": the release of a
+/// group key ends the collection, whether or not the released key is one of the collected ones (it may
+/// be held over from an earlier chord), so press j starts a new group. An empty `cut` = no releases.
+fn v1_expected_cut(c: &Conf, presses: &[(usize, u64)], ambiguous: &mut bool, delayed: bool, cut: &[bool]) -> Vec<u8> {
+    let is_cut = |j: usize| cut.get(j).copied().unwrap_or(false);
     let tb = c.tb();
     let t = tb.t as u64;
     // all chords incl. the single-key ones: (mask, unit id)
@@ -717,7 +808,7 @@ fn v1_expected(c: &Conf, presses: &[(usize, u64)], ambiguous: &mut bool, delayed
         // near the end of such a group's window still joins is not determined by the statement.
         if i > 0 {
             let lag = i as u64 + 2;
-            if let Some(p) = presses.get(j) {
+            if let Some(p) = presses.get(j).filter(|_| !is_cut(j)) {
                 let d = p.1 - start;
                 if !fired && d + lag >= t && d < t + lag {
                     *ambiguous = true;
@@ -729,13 +820,13 @@ fn v1_expected(c: &Conf, presses: &[(usize, u64)], ambiguous: &mut bool, delayed
                 *ambiguous = true;
             }
         } else if delayed && !fired {
-            if let Some(p) = presses.get(j) {
+            if let Some(p) = presses.get(j).filter(|_| !is_cut(j)) {
                 if p.1 - start == t {
                     *ambiguous = true;
                 }
             }
         }
-        while !fired && j < presses.len() && presses[j].1 - start < t {
+        while !fired && j < presses.len() && !is_cut(j) && presses[j].1 - start < t {
             active |= 1 << presses[j].0;
             order.push(presses[j].0);
             j += 1;
@@ -745,14 +836,14 @@ fn v1_expected(c: &Conf, presses: &[(usize, u64)], ambiguous: &mut bool, delayed
             }
             if i > 0 && !fired {
                 let lag = i as u64 + 2;
-                if let Some(p) = presses.get(j) {
+                if let Some(p) = presses.get(j).filter(|_| !is_cut(j)) {
                     let d = p.1 - start;
                     if d + lag >= t && d < t + lag {
                         *ambiguous = true;
                     }
                 }
             } else if delayed && !fired {
-                if let Some(p) = presses.get(j) {
+                if let Some(p) = presses.get(j).filter(|_| !is_cut(j)) {
                     if p.1 - start == t {
                         *ambiguous = true;
                     }
@@ -1424,6 +1515,8 @@ impl Check for C09Check {
             Some(CaseKind::ParserDup) => json!({"kind": "parser duplicate key sets"}),
             Some(CaseKind::Delayed(ci, a, b)) => json!({"config": configs()[*ci].text(), "scenarios": format!("delayed-start scenarios #{a}..#{b} (group keys typed behind an undecided tap-hold)")}),
             Some(CaseKind::Wide(w)) => json!({"kind": "hub key with many chords", "variant": w, "config": wide_cfg(*w)}),
+            Some(CaseKind::Carry(ci, a, b)) => json!({"config": configs()[*ci].text(), "scenarios": format!("held-over scenarios #{a}..#{b} (a group key held from an earlier chord is released among the presses of the next one)")}),
+            Some(CaseKind::Overlap(o)) => json!({"kind": "overlapping chord activations (defchordsv2)", "index": o}),
             _ => json!({"kind": "random histories", "index": idx - lay.len() as u64}),
         }
     }
@@ -1445,6 +1538,14 @@ impl Check for C09Check {
             }
             CaseKind::Delayed(ci, a, b) => {
                 delayed::run_chunk(ctx, ci, a, b, &mut out);
+                return out;
+            }
+            CaseKind::Carry(ci, a, b) => {
+                carry::run_chunk(ctx, ci, a, b, &mut out);
+                return out;
+            }
+            CaseKind::Overlap(o) => {
+                overlap::run_case(ctx, o, &mut out);
                 return out;
             }
             CaseKind::Random(r) => {
@@ -1538,7 +1639,7 @@ impl Check for C09Check {
         out
     }
     fn rule(&self) -> String {
-        "case = one configuration (8 chord tables over 2-5 participating keys: single pair, sub-chord + superset, overlapping pairs with an undefined superset, lone triple, two overlapping triples, pairs + quad, chain of 2/3/4, five-key chord with sub-chords; three defchordsv2-only tables whose chords have different timeouts, an unrelated chord on the same key having a much shorter or longer one; each as a defchords group with single-key chords and as defchordsv2 with all-released / first-release, on the base layer and on a layer where every other chord is disabled; participants written in non-sorted order) and a chunk of its scenario space: for every non-empty subset of the participating keys (subsets of up to 3 keys complete in both tiers; quick: 4-key subsets sampled, 40 000 of 288 000 scenarios each, with a fixed stride; thorough: 4-key subsets complete, 5-key subsets 300 000 of 36 M with a fixed stride; the sampling does not depend on the seed) every permutation of press order x every combination of inter-press gaps from {0,1,T-1,T,T+1} x every permutation of release order x hold {0,1,T+3} x inter-release gap {0,2,9}; for defchordsv2 additionally every chord plus one bystander key (a plain key that is in no chord) in the same scenario space; plus random physically consistent histories mixing chord keys, a non-chord key and an unrelated key (accounting oracle only); plus one parser case (permuted duplicate key sets must be rejected); plus six defchordsv2 configurations in which one hub key takes part in 15 / 17 / 20 two-key chords, every chord in both press orders with gaps 0/1/20; plus the delayed-start family: the 8 single-timeout tables (defchords group, defchordsv2 all-released and first-release) on a layer that also has a blocker key z = (tap-hold TH TH z y) with TH = 14T+60: z is pressed first and stays undecided while, for every subset of up to 4 participating keys, the keys are pressed in every order with every combination of inter-press gaps from {0,1,T-1,T,T+1,2T,3T,4T}; the blocker is then decided by its release (pressed 0/1/6 ticks before the first group key, released 1/2/9 ticks after the last queued event) or by its hold timeout (running out 1/2/9 ticks after the last queued event); the group keys are released in every order, hold {0,1,T+3}, inter-release gap {0,9}, either after the decision or before it (queued behind the blocker too); one- and two-key subsets complete in both tiers, larger subsets sampled with a fixed stride (defchords: quick 2 400 / thorough 40 000 per subset, defchordsv2: 800 / 8 000); the random histories also draw the blocker configurations, with z among the keys. Non-trivial = scenario ran and was judged; distinct = (configuration, pressed subset, scenario class, sequence of fired units). Every fourth random history is a flood: 1-3 group keys go down and, with the chord still pending or just decided, 16-19 zero-gap taps of the key outside the group overflow the 32-slot layout queue; the group keys are judged by the accounting oracle (not swallowed, order kept, chord consumed its keys), the flooding key is not (a tap pushed out of the full queue is processed between two ticks and never shows at the OS, for any key).".into()
+        "case = one configuration (8 chord tables over 2-5 participating keys: single pair, sub-chord + superset, overlapping pairs with an undefined superset, lone triple, two overlapping triples, pairs + quad, chain of 2/3/4, five-key chord with sub-chords; three defchordsv2-only tables whose chords have different timeouts, an unrelated chord on the same key having a much shorter or longer one; each as a defchords group with single-key chords and as defchordsv2 with all-released / first-release, on the base layer and on a layer where every other chord is disabled; participants written in non-sorted order) and a chunk of its scenario space: for every non-empty subset of the participating keys (subsets of up to 3 keys complete in both tiers; quick: 4-key subsets sampled, 40 000 of 288 000 scenarios each, with a fixed stride; thorough: 4-key subsets complete, 5-key subsets 300 000 of 36 M with a fixed stride; the sampling does not depend on the seed) every permutation of press order x every combination of inter-press gaps from {0,1,T-1,T,T+1} x every permutation of release order x hold {0,1,T+3} x inter-release gap {0,2,9}; for defchordsv2 additionally every chord plus one bystander key (a plain key that is in no chord) in the same scenario space; plus random physically consistent histories mixing chord keys, a non-chord key and an unrelated key (accounting oracle only); plus one parser case (permuted duplicate key sets must be rejected); plus six defchordsv2 configurations in which one hub key takes part in 15 / 17 / 20 two-key chords, every chord in both press orders with gaps 0/1/20; plus the delayed-start family: the 8 single-timeout tables (defchords group, defchordsv2 all-released and first-release) on a layer that also has a blocker key z = (tap-hold TH TH z y) with TH = 14T+60: z is pressed first and stays undecided while, for every subset of up to 4 participating keys, the keys are pressed in every order with every combination of inter-press gaps from {0,1,T-1,T,T+1,2T,3T,4T}; the blocker is then decided by its release (pressed 0/1/6 ticks before the first group key, released 1/2/9 ticks after the last queued event) or by its hold timeout (running out 1/2/9 ticks after the last queued event); the group keys are released in every order, hold {0,1,T+3}, inter-release gap {0,9}, either after the decision or before it (queued behind the blocker too); one- and two-key subsets complete in both tiers, larger subsets sampled with a fixed stride (defchords: quick 2 400 / thorough 40 000 per subset, defchordsv2: 800 / 8 000); the random histories also draw the blocker configurations, with z among the keys. Non-trivial = scenario ran and was judged; distinct = (configuration, pressed subset, scenario class, sequence of fired units). Every fourth random history is a flood: 1-3 group keys go down and, with the chord still pending or just decided, 16-19 zero-gap taps of the key outside the group overflow the 32-slot layout queue; the group keys are judged by the accounting oracle (not swallowed, order kept, chord consumed its keys), the flooding key is not (a tap pushed out of the full queue is processed between two ticks and never shows at the OS, for any key). Plus the held-over family (defchords groups; the 7 single-timeout tables with at least 3 keys, on the layer with the blocker key): every choice of one or two carried group keys, pressed together and left alone for 3T+10 ticks so that their press is consumed, then every set of 1-3 other group keys pressed in every order, the release of each carried key placed at every position among those presses, consecutive events {0,1,3,T-1,T+1} ticks apart; typed at an idle kanata, or queued behind the blocker that is then decided by its release / by its hold timeout (1 or 9 ticks after the last event); the new keys released in every order, hold {1,T+3}, gap {0,9}; sampled per (carried keys, new keys) with a fixed stride (quick 150 / 600 / 2 400 scenarios for 1 / 2 / 3 new keys, thorough 1 500 / 8 000 / 40 000; seed-independent). Plus the overlapping-activations family (defchordsv2): six tables of chords that can be held side by side - two disjoint pairs; ab, bc, ad; a ring of five pairs; ab, cd, ae, ce; abc, de, ad, be; ab, abc, de - each all-released, first-release and alternating per chord; per configuration 24 (thorough 400) cases of 40 histories; a history is a walk of 6-21 steps (start a chord whose keys are all up, its keys going down 0-2 ticks apart in any order / let go of one held key / let go of every held key of one chord / press a single key, the key outside every chord included), 0, 1, 2, 3, 8 or T+8 ticks between steps, everything released at the end; even-numbered cases use a fixed generator seed, odd-numbered ones the run's seed.".into()
     }
     fn assumptions(&self) -> Vec<String> {
         vec![
@@ -1549,6 +1650,9 @@ impl Check for C09Check {
             "v1: a group of presses that does not start from idle starts when its first press is processed (earlier keys are replayed one per tick); scenarios where a press falls within that lag of such a group's window end, and counting configurations where an earlier chord already fired (its virtual-key tap is a queued non-chord press), are judged by accounting only; for the same reason a chord whose first participant did not arrive at idle may fire with a span of up to T + rapid-event-delay + 2 x keys".into(),
             "v2 negative scenarios are judged by accounting only (which sub-chords fire depends on press order by design)".into(),
             "delayed-start family: a press that waited in the queue behind the undecided blocker keeps its arrival time for the window (v1 convention as measured on the tree: a queued press joins the group iff it arrived <= T after the group's first press, a press arriving at a running chord iff < T; a distance of exactly T is not judged; later groups of the same scenario have the lag zone of the from-idle family); a chord may fire with an arrival span of up to its window + rapid-event-delay + 2 x (keys + 1), as for every group that does not start from idle; which output (tap or hold) the blocker itself produces is not judged, only that it is delivered exactly once and first; defchordsv2 with a blocker is judged by accounting, the window clause and released-early only (the blocker is a non-chord key and opens the chords-v2-min-idle window, in which chords are skipped by design)".into(),
+            "held-over family: the reference grouping takes the release of any key of the group as the end of the collection (guide: a chord triggers by a key release); phase 2 typed at an idle kanata is judged like a scenario from idle, phase 2 queued behind the blocker like the delayed-start family (distance of exactly T not judged, lag zone for groups after the first); the chord of the carried keys themselves is judged by 'released after the last of them, at most 2 x rapid-event-delay + 2 x (keys + 1) + 2 ticks later, plus rapid-event-delay + 3 per queued event once the blocker is decided'".into(),
+            "overlapping-activations family: the release rule of an activation is computed from the presses the accounting assigns to it (each participant's first release after that press); an activation is not judged by it when one of its keys had more than one press that was not yet accounted for when it fired (the OS stream does not say which press was consumed) or when the same chord completed again before its action went up (a release takes a few ticks to reach the OS: one uninterrupted press, judged at the later activation); upper bound = 3 x rapid-event-delay + 12 ticks after the rule is met, judged only where at most 8 key events arrived in the 30 ticks before and the slack after (the release waits in the layout's queue behind the events in front of it); must-fire is judged for episodes without any other press within T+8 ticks before the first or after the first press of the episode (clear of the chords-v2-min-idle window of earlier keys); how long after the completing press a chord fires is not judged".into(),
+            "accounting: when a key of a fired chord has several unaccounted presses every combination of 'earliest' / 'latest that had arrived' per fired chord (up to 10 chords) is tried before an inconsistency is reported".into(),
             "many scenarios run on one kanata instance separated by idle periods; a mismatch is re-judged on a fresh instance".into(),
         ]
     }
@@ -1589,6 +1693,30 @@ impl Check for C09Check {
             ("delayed_blocker_decided_by_hold_timeout", 60_000),
             ("delayed_group_releases_queued_behind_blocker", 60_000),
             ("random_blocker_key_decisions", 500),
+            // held-over family: the carried key really was let go in the middle of a collection, the keys
+            // before it were no chord of their own (decomposed), with the later press already queued; all
+            // three ways of typing phase 2; compared with the reference
+            ("v1_carry_scenarios", 150_000),
+            ("v1_carry_two_keys_held_over", 40_000),
+            ("v1_carry_typed_at_idle_kanata", 40_000),
+            ("v1_carry_queued_behind_blocker_decided_by_release", 40_000),
+            ("v1_carry_queued_behind_blocker_decided_by_hold_timeout", 40_000),
+            ("v1_carry_held_over_key_released_mid_collection", 40_000),
+            ("v1_carry_undefined_key_set_cut_by_held_over_release", 6_000),
+            ("v1_carry_undefined_key_set_cut_with_later_press_already_queued", 5_000),
+            ("v1_carry_outcomes_compared_with_reference", 120_000),
+            ("v1_carry_scenarios_with_chord_fired", 25_000),
+            // overlapping-activations family: chords really were held together, in a non-nested way and on
+            // the remaining key of an all-released chord; both bounds of the release rule and must-fire judged
+            ("overlap_histories", 15_000),
+            ("overlap_chords_fired", 50_000),
+            ("overlap_histories_with_two_or_more_chords_held_together", 6_000),
+            ("max_overlap_chords_held_together", 3),
+            ("overlap_activations_after_older_of_two_held_chords_was_released", 1_000),
+            ("overlap_activations_with_key_let_go_by_still_active_chord", 500),
+            ("overlap_activations_judged_by_release_rule", 30_000),
+            ("overlap_activations_judged_by_release_upper_bound", 20_000),
+            ("overlap_isolated_episodes_judged_must_fire", 15_000),
         ]
     }
     fn exhaustive(&self, _ctx: &Ctx) -> bool {
